@@ -191,7 +191,7 @@ def check_case(ctx, case):
                 params.append(f"t{i}: PTALT" if (alt_last and i == len(trees) - 1) else f"t{i}: PT")
                 vals.append(build_value(trees[i], wrap, alias=bool(case.get('alias')), enum_keys=bool(case.get("enum_keys")) and i >= 1, spec=spec if not (alt_last and i == len(trees) - 1) else alt_spec))
         src = f"def fn({', '.join(params)}):\n    return None\n"
-        exec(compile(src, "<vf-c16>", "exec"), ns)
+        gc.exec_source(src, "<vf-c16>", ns)
         with warnings.catch_warnings():
             warnings.simplefilter("ignore")
             fn = jaxtyped(typechecker=gc.checker(ck))(ns["fn"])
